@@ -359,6 +359,7 @@ struct ChanSched {
     out: Arc<Mutex<SchedOut>>,
     inner: Option<Sched>,
     running: bool,
+    cancel: Arc<std::sync::atomic::AtomicBool>,
 }
 
 impl Scheduler for ChanSched {
@@ -379,6 +380,9 @@ impl Scheduler for ChanSched {
     }
 
     fn next_task(&mut self, runnable: &[&Task], current: Option<TaskId>, is_yielding: bool) -> Option<TaskId> {
+        if self.cancel.load(std::sync::atomic::Ordering::Relaxed) {
+            panic!("{}", cfr_verif_seam::CANCELLED_MSG);
+        }
         self.inner.as_mut().expect("no job").next_task(runnable, current, is_yielding)
     }
 
@@ -387,12 +391,16 @@ impl Scheduler for ChanSched {
     }
 }
 
-fn executor_main(jobs: std::sync::mpsc::Receiver<Job>, done: std::sync::mpsc::Sender<Done>) {
+fn executor_main(jobs: std::sync::mpsc::Receiver<Job>, done: std::sync::mpsc::Sender<Done>, cancel: Arc<std::sync::atomic::AtomicBool>) {
+    cfr_verif_seam::set_cancel_flag(cancel.clone());
     let jobs = Arc::new(Mutex::new(jobs));
     loop {
         let slot: Arc<Mutex<Option<JobFn>>> = Arc::new(Mutex::new(None));
         let out = Arc::new(Mutex::new(SchedOut::default()));
-        let sched = ChanSched { jobs: jobs.clone(), done: done.clone(), slot: slot.clone(), out: out.clone(), inner: None, running: false };
+        if cancel.load(std::sync::atomic::Ordering::Relaxed) {
+            return; // abandoned by the watchdog: this executor is not used again
+        }
+        let sched = ChanSched { jobs: jobs.clone(), done: done.clone(), slot: slot.clone(), out: out.clone(), inner: None, running: false, cancel: cancel.clone() };
         let mut cfg = shuttle::Config::new();
         // every simulated thread of an execution keeps its stack until the execution ends, and
         // long runs spawn thousands of short-lived workers: keep stacks small (the recursion
@@ -423,6 +431,7 @@ fn executor_main(jobs: std::sync::mpsc::Receiver<Job>, done: std::sync::mpsc::Se
 struct Executor {
     tx: std::sync::mpsc::Sender<Job>,
     rx: std::sync::mpsc::Receiver<Done>,
+    cancel: Arc<std::sync::atomic::AtomicBool>,
 }
 
 thread_local! {
@@ -433,7 +442,15 @@ thread_local! {
 /// cannot see those): a simulated execution that does not finish within this many wall-clock
 /// seconds is reported as a hang and its executor thread is abandoned. Ordinary executions take
 /// milliseconds to a few seconds, so the limit is not a timing oracle.
+/// while a violation is being minimised every candidate that hangs would cost a full watchdog
+/// period; the minimiser lowers the limit for its own executions (0 = no override)
+pub static WATCHDOG_OVERRIDE_S: std::sync::atomic::AtomicU64 = std::sync::atomic::AtomicU64::new(0);
+
 pub fn watchdog_secs() -> u64 {
+    let o = WATCHDOG_OVERRIDE_S.load(std::sync::atomic::Ordering::Relaxed);
+    if o != 0 {
+        return o;
+    }
     std::env::var("VERIF_WATCHDOG_S").ok().and_then(|s| s.parse().ok()).unwrap_or(180)
 }
 
@@ -445,19 +462,23 @@ fn submit(job: Job) -> Done {
         if e.is_none() {
             let (tx, jrx) = std::sync::mpsc::channel::<Job>();
             let (dtx, rx) = std::sync::mpsc::channel::<Done>();
+            let cancel = Arc::new(std::sync::atomic::AtomicBool::new(false));
+            let c2 = cancel.clone();
             std::thread::Builder::new()
                 .name("sim-executor".into())
                 .stack_size(16 << 20)
-                .spawn(move || executor_main(jrx, dtx))
+                .spawn(move || executor_main(jrx, dtx, c2))
                 .expect("cannot start executor thread");
-            *e = Some(Executor { tx, rx });
+            *e = Some(Executor { tx, rx, cancel });
         }
         let ex = e.as_ref().unwrap();
         ex.tx.send(job).expect("executor thread gone");
         match ex.rx.recv_timeout(std::time::Duration::from_secs(watchdog_secs())) {
             Ok(d) => d,
             Err(std::sync::mpsc::RecvTimeoutError::Timeout) => {
-                // abandon the spinning executor; the next execution gets a fresh one
+                // abandon the spinning executor (every hook and scheduling point of it now panics,
+                // so it unwinds as soon as it reaches one); the next execution gets a fresh one
+                ex.cancel.store(true, std::sync::atomic::Ordering::Relaxed);
                 *e = None;
                 Done { out: SchedOut::default(), failure: Some(format!("{WATCHDOG_MSG} within {} s", watchdog_secs())) }
             }
